@@ -1051,6 +1051,9 @@ func (c *CaseC11) Eval(ob *Obs) []Finding {
 			if f != nil {
 				p := plan
 				c.Only, c.OnlyEntry = &p, entry
+				if huge {
+					f.Sig += " [huge]"
+				}
 				return append(out, *f)
 			}
 		}
